@@ -6,6 +6,7 @@ Direction A: library writer -> reference decoder: the bytes must be a gap-free
 sequence of Fortran records with matching markers whose header counts match
 the content and from which the independent decoder recovers exactly what was
 written."""
+import datetime
 import os
 
 import numpy as np
@@ -30,6 +31,7 @@ RULE = ('images of every CAMx binary format (uamiv AVERAGE/EMISSIONS/INSTANT/'
         'files bundled with the library, judged against the independent '
         'decoder in both directions. non-trivial = the image has >= 2 cells per field; '
         'distinct = digest of the image spec.')
+RULE += (" The gridded reader's TSTEP attribute must be the encoded length of the first averaging interval (steps ending on another day included).")
 ASSUMPTIONS = [
     'the reference codecs were written from the CAMx User\'s Guide record '
     'layouts; a misreading of the format documents shared with the '
@@ -152,6 +154,25 @@ def compare_content(f, c, spec, res, who):
         if str(f.NAME).strip() != h['name']:
             problems.append('%s: NAME %r, encoded %r' % (who, f.NAME,
                                                         h['name']))
+        if fmt == 'uamiv' and who != 'Read' and hasattr(f, 'TSTEP') and \
+                c['tflag'] and c.get('etflag'):
+            # the step the reader states (what a converted IOAPI file will
+            # carry) is the encoded length of the first averaging interval
+            def _abs(dt):
+                d_, t_ = dt
+                return datetime.datetime(d_ // 1000, 1, 1) + \
+                    datetime.timedelta(days=d_ % 1000 - 1,
+                                       hours=t_ // 10000,
+                                       minutes=t_ % 10000 // 100,
+                                       seconds=t_ % 100)
+            secs = int((_abs(c['etflag'][0]) - _abs(c['tflag'][0])
+                        ).total_seconds())
+            want = secs // 3600 * 10000 + secs % 3600 // 60 * 100 + secs % 60
+            if int(f.TSTEP) != want:
+                problems.append('%s: TSTEP attribute %r, the first step of '
+                                'the image is %s -> %s (%d)'
+                                % (who, f.TSTEP, c['tflag'][0],
+                                   c['etflag'][0], want))
         vl = getattr(f, 'VAR-LIST')
         names = [vl[i:i + 16].strip() for i in range(0, len(vl), 16)]
         exp = list(c['vars'])
